@@ -21,7 +21,8 @@ RULE = ("RouteLab: real NetworkServiceAccessPoint + NetworkServiceElement statio
         "network it came from). Frames injected with hop count 0, 1, 2 must die out after that many hops. Rings of 3..4 networks: "
         "a global broadcast must reach quiescence within 2*255*(#routers) forwarded frames. Non-trivial: message crossing >= 1 "
         "router. Distinct by (topology, message list)."
-        " Also: steps of 2-4 messages from different stations in the same instant (crossing traffic).")
+        " Also: steps of 2-4 messages from different stations in the same instant (crossing traffic)."
+        " Station addresses reused across networks; one router that also hosts a device.")
 ASSUMPTIONS = [
     "network numbers are unique and MACs unique per LAN; a station that does not know its own network number never addresses its own network as a remote one",
     "in cyclic topologies exactly-once delivery is not asserted, only termination",
